@@ -90,7 +90,7 @@ def run(ctx):
             L = rnd.uniform(0.1, 80)
             law("FIBER(L,b2)=DM(b2*L)", FIBER(sig, L, beta_2=D1 / L).signal, DM(sig, D1).signal)
             L2 = rnd.uniform(0.1, 80)
-            al, b2, b3 = rnd.choice([0, 0.2, 0.5]), rnd.uniform(-25, 25), rnd.uniform(-0.2, 0.2) * rnd.choice([0, 1])
+            al, b2, b3 = rnd.choice([0, 0.2, 0.5]), rnd.uniform(-25, 25) * rnd.choice([0, 1, 1]), rnd.uniform(-0.2, 0.2) * rnd.choice([0, 1])
             two = FIBER(FIBER(sig, L, al, b2, b3), L2, al, b2, b3)
             one = FIBER(sig, L + L2, al, b2, b3)
             law("two-spans=one-span", two.signal, one.signal, dB=al * (L + L2))
